@@ -1,6 +1,6 @@
 (* C13 — valid use never panics, poisons or hangs the container. *)
 From Coq Require Import List Arith ZArith.
-From LK Require Import AList Model Inv StepInv NoPanic.
+From LK Require Import AList Model Observe Inv StepInv NoPanic DropInv Stream Fine.
 Import ListNotations.
 
 (* No label whatsoever makes the library panic in a reachable state.  RPanic covers every
@@ -25,3 +25,60 @@ Qed.
 (* the slow_assertions check itself holds in every reachable state *)
 Theorem C13_slow_assertions_hold : forall c s, reachable c s -> inv2_ok (s_ents s) = true.
 Proof. intros c s H. exact (Inv_inv2_ok s (reachable_inv c s H)). Qed.
+
+(* ------------------------------------------------------------------ *)
+(* Granularity.  The model's steps are whole critical sections; in the code the two critical sections that
+   release a key mutex (`_unlock`, `PendingLock::drop`) make the release visible to other threads before they
+   are finished.  Fine.v defines that fine-grained semantics (fstep: first half, lock-free steps of other
+   agents, second half) and proves that it adds no behaviour: *)
+
+(* the pending second half commutes with every lock-free step of every other agent, ... *)
+Theorem C13_second_half_commutes : forall c m s l s' o,
+  mid_ok m s -> Inv (fst (second c m s)) ->
+  lockfree s l = true -> label_agent l <> Some (mid_agent m) -> step c s l = ROk s' o ->
+  step c (fst (second c m s)) l = ROk (fst (second c m s')) o /\
+  mid_ok m s' /\ snd (second c m s') = snd (second c m s).
+Proof. exact pending_commutes. Qed.
+
+(* ... so every fine-grained run is a run of the model in which each of these critical sections takes effect
+   at its first half (lin drops the second halves and attaches the caller's eventual observation to the
+   first), with the same observations and the same final state, ... *)
+Theorem C13_fine_grained_runs_linearise : forall c fs evs fs',
+  Rel c fs -> fruns c fs evs fs' ->
+  oruns c (collapse c fs) (lin evs) (collapse c fs') /\ Rel c fs'.
+Proof. exact fine_run_linearises. Qed.
+
+(* ... every state a fine-grained run reaches between critical sections is reachable in the model (so the
+   invariant, C01, C04, the absence of panics ... hold there), ... *)
+Theorem C13_fine_grained_states_are_reachable : forall c s0 evs s',
+  reachable c s0 -> fruns c (s0, None) evs (s', None) -> oruns c s0 (lin evs) s' /\ reachable c s'.
+Proof. exact fine_runs_reach_model_states. Qed.
+
+(* ... and what the second half reports is what was announced at the first. *)
+Theorem C13_second_half_reports_what_was_announced : forall c m s evs s',
+  Rel c (s, Some m) -> fruns c (s, Some m) evs (s', Some m) ->
+  Forall (fun ev => snd (fst ev) = FOther) evs ->
+  snd (second c m s') = snd (second c m s).
+Proof. exact announced_is_delivered. Qed.
+
+(* non-vacuity: guard 0 on key 1 (no value), an async waiter queued behind it; the drop of guard 0 releases
+   the key (first half), the waiter takes the guard and inserts a value while the drop still holds the global
+   lock, then the drop finishes (second half: the entry stays, one replica left) *)
+Example C13_fine_witness :
+  exists s evs s',
+    run (mkCfg true) [LStart 0 (CLock ShBlocking 1 None); LResume 0 []; LStart 1 (CLock ShAsync 1 None);
+                      LResume 1 []; LResume 1 []; LStart 2 (CDrop 0)]
+      = RunOk s [ONothing; OGuard 0 1 None; ONothing; ONothing; ONothing; ONothing] /\
+    fruns (mkCfg true) (s, None) evs (s', None) /\
+    map (fun ev => (fst (fst ev), snd ev)) evs =
+      [(LResume 2 [], ONothing); (LResume 1 [], OGuard 1 1 None); (LGuardOp 1 (GInsert 7), OVal None); (LResume 2 [], OUnit)] /\
+    lin evs = [(LResume 2 [], OUnit); (LResume 1 [], OGuard 1 1 None); (LGuardOp 1 (GInsert 7), OVal None)] /\
+    s_ents s' = [(1, mkE (Some (7, 0)%Z) (Some (OwnG 1)) [] 1)] /\ s_ops s' = [].
+Proof.
+  eexists. eexists. eexists. split; [vm_compute; reflexivity|]. split.
+  - eapply fr_cons; [eapply (fs_unlock1 _ _ 2 [] 0 [] ADoneUnit); vm_compute; reflexivity|].
+    eapply fr_cons; [eapply (fs_other _ _ _ (LResume 1 [])); [reflexivity|cbn; discriminate|vm_compute; reflexivity]|].
+    eapply fr_cons; [eapply (fs_other _ _ _ (LGuardOp 1 (GInsert 7))); [reflexivity|cbn; discriminate|vm_compute; reflexivity]|].
+    eapply fr_cons; [eapply (fs_second _ _ (MUnlock 2 1 true) [])|]. apply fr_nil.
+  - vm_compute. auto.
+Qed.
